@@ -17,7 +17,7 @@ type ssaFunc = ssa.Function
 func init() { Registry["C03"] = c03 }
 
 func c03(p *core.Prog, r *core.Report) {
-	r.Explain = "Decides, from the source alone: (INV) the cross-function invariants the range analysis relies on (frame buffers are allocated at the maximum payload size and never reassigned; the declared frame size is validated by ReadBody before any use; relay lazy offsets are byte counts of successful bounded reads) are re-established by who-may-write / who-may-call / guard-dominance obligations; (R1) every index, slice and make in every function that handles wire data (methods of and functions over ReadBuffer, Reader, Frame, FrameHeader, lazy relay messages, the fragment reader, the arg2 iterator, checksum type) is within bounds for every value the operands can take, by interval analysis with symbolic <=len facts, guard refinement, and ranges inferred across calls (parameters joined over call sites, fields over stores, results over returns); (R2) every explicit panic synchronously reachable from the frame reader and the handshakes is unreachable for all message types / connection states that can arrive there (finite-enum abstract interpretation with caller-established facts about the frame's type), or is a reviewed panic not driven by peer bytes; no os.Exit / Fatal is reachable; (R3) a read or body error in the reader loop reaches the connection error handler and leaves the loop; (R4) every loop in those functions is counted, a range, consumes a bounded buffer, or blocks on I/O each iteration; (R5) the lock-order graph of the package's mutexes is acyclic. A loop consuming a bounded read buffer is accepted only if every iteration performs a fixed-width read and passes an exit test of the buffer's sticky error. The relay-table invariants the reviewed timer panics rely on (an id present in the table is never re-admitted, timers released only by Delete, Stop under the table lock) are re-checked here. (R6) the maps of the guarded table are only touched with their lock held in the right mode (a concurrent map access aborts the process; shared with C04-R1). The reader dispatches a frame only if both reads of the iteration returned no error; a loop that calls Read again leaves on every error (thrift transport adapter included). (R7) a failed call admission removes the exchange it registered (shared with C11-R1) and the lazy relay parsers agree with the specified layouts (shared with C08-R4)."
+	r.Explain = "Decides, from the source alone: (INV) the cross-function invariants the range analysis relies on (frame buffers are allocated at the maximum payload size and never reassigned; the declared frame size is validated by ReadBody before any use; relay lazy offsets are byte counts of successful bounded reads) are re-established by who-may-write / who-may-call / guard-dominance obligations; (R1) every index, slice and make in every function that handles wire data (methods of and functions over ReadBuffer, Reader, Frame, FrameHeader, lazy relay messages, the fragment reader, the arg2 iterator, checksum type) is within bounds for every value the operands can take, by interval analysis with symbolic <=len facts, guard refinement, and ranges inferred across calls (parameters joined over call sites, fields over stores, results over returns); (R2) every explicit panic synchronously reachable from the frame reader and the handshakes is unreachable for all message types / connection states that can arrive there (finite-enum abstract interpretation with caller-established facts about the frame's type), or is a reviewed panic not driven by peer bytes; no os.Exit / Fatal is reachable; (R3) a read or body error in the reader loop reaches the connection error handler and leaves the loop; (R4) every loop in those functions is counted, a range, consumes a bounded buffer, or blocks on I/O each iteration; (R5) the lock-order graph of the package's mutexes is acyclic. A loop consuming a bounded read buffer is accepted only if every iteration performs a fixed-width read and passes an exit test of the buffer's sticky error. The relay-table invariants the reviewed timer panics rely on (an id present in the table is never re-admitted, timers released only by Delete, Stop under the table lock) are re-checked here. (R6) the maps of the guarded table are only touched with their lock held in the right mode (a concurrent map access aborts the process; shared with C04-R1). The reader dispatches a frame only if both reads of the iteration returned no error; a loop that calls Read again leaves on every error (thrift transport adapter included). (R7) a failed call admission removes the exchange it registered (shared with C11-R1) and the lazy relay parsers agree with the specified layouts (shared with C08-R4). Pooled decoders do not keep a sticky error from one message to the next (shared with C04-R7)."
 	r.NotDecided = "liveness under arbitrary interleavings with legitimate traffic, goroutine starvation, resource exhaustion (memory, goroutines), panics inside user-supplied handlers/loggers, nil dereferences and map/type-assertion panics (outside the index/slice/panic sinks decided here)."
 	r.Rule("C03-INV", "E6 who-may-write / guards", 12, "cross-function invariants used by the sink analysis (frame buffer length, validated frame size, lazy offsets)")
 	r.Rule("C03-R1", "E3 ranges", 40, "no index/slice/make on peer-controlled data without a dominating bound")
